@@ -249,7 +249,7 @@ def proof_rules(fb, ctx, b, rets):
         lk = mirq.operand_leaves(fb, b, v.args[0])
         ls = mirq.operand_leaves(fb, b, v.args[2])
         lblk = mirq.operand_leaves(fb, b, sealp[0].args[0])
-        ok = any("generate_seal_signature_payload_v0" in l for l in lv) and mirq.has_leaf(lk, "arg1.authority.next_key") and any(l.startswith("arg1.proof") for l in ls) and mirq.has_leaf(lblk, "arg1.authority") and any(l.startswith("arg1.blocks") for l in lblk)
+        ok = any("generate_seal_signature_payload_v0" in l for l in lv) and mirq.has_leaf(lk, "arg1.authority.next_key") and any(l.startswith("arg1.proof") for l in ls) and last_block_leaves(lblk)
         ctx.check(ok, "PROOF", "seal proof: seal signature verified over the last block under the last next key", "PROOF|seal-args", f"verify_signature(key<-{sorted(l for l in lk if l.startswith('arg'))}, payload<-{sorted(l for l in lv if 'generate' in l)}, sig<-{sorted(l for l in ls if l.startswith('arg'))}) over block<-{sorted(l for l in lblk if l.startswith('arg'))}", f"{b['file']}:{v.ln}")
         e = mirq.success_edge(fb, b, v)
         if e:
@@ -452,7 +452,7 @@ def seal_rules(fb, ctx):
         lv = mirq.operand_leaves(fb, b, sg[0].args[1])
         lk = L.operand(sg[0].args[0])
         lblk = mirq.operand_leaves(fb, b, gp[0].args[0])
-        ctx.check(any("generate_seal_signature_payload_v0" in l for l in lv) and "keypair" in lk and "arg1.proof" in lk and mirq.has_leaf(lblk, "arg1.authority") and any(l.startswith("arg1.blocks") for l in lblk), "SEAL", "seal: signature by the carried secret over the last block", "SEAL|args", f"sign(key {lk}) over payload<-{sorted(l for l in lv if 'generate' in l)} of block<-{sorted(l for l in lblk if l.startswith('arg'))}", where)
+        ctx.check(any("generate_seal_signature_payload_v0" in l for l in lv) and "keypair" in lk and "arg1.proof" in lk and last_block_leaves(lblk), "SEAL", "seal: signature by the carried secret over the last block", "SEAL|args", f"sign(key {lk}) over payload<-{sorted(l for l in lv if 'generate' in l)} of block<-{sorted(l for l in lblk if l.startswith('arg'))}", where)
     tn = [s for _, s in mirq.aggregates(b, r"crypto::TokenNext$")]
     ctx.check(len(tn) == 1 and tn[0]["r"].get("variant") == "Seal", "SEAL", "sealed container stores TokenNext::Seal, not the secret", "SEAL|proof", "seal() does not build TokenNext::Seal(signature)", where)
     sb = [s for _, s in mirq.aggregates(b, r"format::SerializedBiscuit$")]
@@ -462,6 +462,12 @@ def seal_rules(fb, ctx):
         lr = mirq.operand_leaves(fb, b, mirq.agg_field(sb[0], "root_key_id"))
         ctx.check(mirq.has_leaf(la, "arg1.authority") and mirq.has_leaf(lbk, "arg1.blocks") and mirq.has_leaf(lr, "arg1.root_key_id") and not any(l.startswith("arg") and not l.startswith("arg1.blocks") for l in lbk), "SEAL", "seal keeps authority, blocks and root key id", "SEAL|preserve", f"blocks<-{sorted(l for l in lbk if l.startswith('arg'))}", where)
     mirq.must_pass(fb, ctx, b, r"crypto::TokenNext::keypair$", "SEAL", "seal needs the secret (refused on a sealed token)", "SEAL|needs-secret")
+
+
+def last_block_leaves(l):
+    """the block under the seal comes from self.authority / self.blocks, directly or through SerializedBiscuit::last_block(self)
+    (whose selector the LASTBLOCK rule checks)"""
+    return (mirq.has_leaf(l, "arg1.authority") and any(x.startswith("arg1.blocks") for x in l)) or (any(x.endswith("SerializedBiscuit::last_block") for x in l) and any(x == "arg1" or x.startswith("arg1") for x in l))
 
 
 def last_block_rules(fb, ctx):
@@ -486,7 +492,10 @@ def last_block_rules(fb, ctx):
         sel = selectors(fb.hir_of(b))
         n += len(sel)
         bad = [(w, ln) for w, ln in sel if w != "last"]
-        ctx.check(bool(sel) and not bad, "LASTBLOCK", f"{fn.split('::')[-1]}: the block selected from self.blocks is the last one", f"LASTBLOCK|{fn.split('::')[-1]}", f"block selector(s) {bad or 'none found'}: the seal / next request must be computed from the last block of the chain (`blocks[len - 1]` or `blocks.last()`), which is the one the verifier checks the seal against", f"{b['file']}:{(bad[0][1] if bad else b['line'])}")
+        via_accessor = fn != F + "::last_block" and bool(mirq.calls_matching(fb, b, r"SerializedBiscuit::last_block$"))
+        if via_accessor and not sel:
+            n += 1
+        ctx.check((bool(sel) or via_accessor) and not bad, "LASTBLOCK", f"{fn.split('::')[-1]}: the block selected from self.blocks is the last one", f"LASTBLOCK|{fn.split('::')[-1]}", f"block selector(s) {bad or 'none found'}: the seal / next request must be computed from the last block of the chain (`blocks[len - 1]` or `blocks.last()`), which is the one the verifier checks the seal against", f"{b['file']}:{(bad[0][1] if bad else b['line'])}")
     ctx.floor("single-block selectors on SerializedBiscuit.blocks", n, 3)
 
 
@@ -616,17 +625,17 @@ def wire_rules(fb, ctx):
     tb = fb.body(F + "::to_proto")
     db = fb.body(F + "::deserialize")
     where_t, where_d = f"{tb['file']}:{tb['line']}", f"{db['file']}:{db['line']}"
-    sbs = [s for _, s in mirq.aggregates(tb, r"schema::SignedBlock$")]
+    sbs = mirq.deep_aggregates(fb, tb, r"schema::SignedBlock$")      # the per-block one may sit in a `.map(|block| ..)` closure
     ctx.floor("SignedBlock aggregates in to_proto", len(sbs), 2)
     want_w = {"block": ".data", "next_key": ".next_key", "signature": ".signature", "version": ".version"}
-    for n, s in enumerate(sbs):
+    for n, (owner_, s) in enumerate(sbs):
         who = "authority" if n == 0 else "blocks"
         for f, suffix in want_w.items():
-            lv = mirq.operand_leaves(fb, tb, mirq.agg_field(s, f))
+            lv = mirq.deep_leaves(fb, tb, owner_, mirq.agg_field(s, f))
             ok = any(l.startswith("arg1." + who) and l.endswith(suffix) for l in lv)
             ctx.check(ok, "WIRE", f"to_proto: SignedBlock.{f} of {who} <- self.{who}{suffix}", f"WIRE|to_proto|{who}|{f}", f"field depends on {sorted(l for l in lv if l.startswith('arg'))}", where_t)
         if who == "blocks":
-            lv = mirq.operand_leaves(fb, tb, mirq.agg_field(s, "external_signature"))
+            lv = mirq.deep_leaves(fb, tb, owner_, mirq.agg_field(s, "external_signature"))
             ctx.check(any(l.startswith("arg1.blocks") and "external_signature" in l for l in lv), "WIRE", "to_proto: external signature of each block is written", "WIRE|to_proto|blocks|external_signature", f"field depends on {sorted(l for l in lv if l.startswith('arg'))}", where_t)
     top = [s for _, s in mirq.aggregates(tb, r"schema::Biscuit$")]
     if top:
@@ -741,13 +750,20 @@ def signature_version_rules(fb, ctx):
     ctx.check(len(ifs) == 1 and strip(strip(ifs[0]["cond"])["recv"]).get("res", {}).get("name") is not None, "SIGVER", "external signature forces version 1", "SIGVER|external", "`if external_signature.is_some() { return THIRD_PARTY_SIGNATURE_VERSION }` not found", where)
     ge = [n for n in find_all(h["body"], lambda n: n.get("k") == "binary" and n.get("op") in ("Ge", "Gt")) if find_all(n, lambda z: z.get("k") == "path" and (z["res"].get("path") or "").endswith("DATALOG_3_3"))]
     ctx.check(len(ge) == 1 and ge[0]["op"] == "Ge", "SIGVER", "datalog >= 3.3 forces version 1", "SIGVER|datalog", "`block_version >= DATALOG_3_3` guard not found", where)
-    kp = [m for m in hirq.matches_in(h["body"]) if "crypto::KeyPair" in (m.get("sty") or "")]
+    kp = [m for m in find_all(h["body"], lambda z: z.get("k") == "match") if "crypto::KeyPair" in (m.get("sty") or "")]
     ok = False
     for m in kp:
         tab = {}
+        # `if !matches!((a, b), (Ed25519, Ed25519)) { return V }`: the match yields a bool that (negated or not) guards the return
+        guard_if = [i for i in find_all(h["body"], lambda z: z.get("k") == "if") if find_all(i["cond"], lambda z: z is m) and find_all(i["then"], lambda n: n.get("k") == "ret")]
+        negated = bool(guard_if) and strip(guard_if[0]["cond"]).get("k") == "unary" and strip(guard_if[0]["cond"]).get("op") == "Not"
         for arm in m["arms"]:
             alts = hirq.arm_position_sets(arm["pat"])
-            tab[str(alts)] = bool(find_all(arm["body"], lambda n: n.get("k") == "ret"))
+            if guard_if:
+                v = hirq.literal(strip(arm["body"]))
+                tab[str(alts)] = (v is True) != negated if isinstance(v, bool) else None
+            else:
+                tab[str(alts)] = bool(find_all(arm["body"], lambda n: n.get("k") == "ret"))
         both_ed = [k for k in tab if k.count("KeyPair::Ed25519") == 2]
         ok = len(both_ed) == 1 and tab[both_ed[0]] is False and all(v for k, v in tab.items() if k != both_ed[0])
     ctx.check(ok, "SIGVER", "any non-ed25519 key forces version 1", "SIGVER|algorithm", "`match (block_keypair, next_keypair) { (Ed25519, Ed25519) => {}, _ => return 1 }` not found", where)
@@ -783,6 +799,15 @@ def revocation_rules(fb, ctx):
         short = "::".join(fn.split("::")[-2:])
         d = mirq.deps(fb, b)
         lv = {l for l in d[0] if l.startswith("arg")}
+        # an iterator chain computes the per-block part in a closure: its result, with the element parameter read as the source
+        # the adaptor ranges over
+        for ck, cb in fb.bodies.items():
+            if cb.get("kind") == "Closure" and cb.get("parent") == b["key"]:
+                src, cap = mirq.closure_context(fb, b, ck)
+                for x in mirq.deps(fb, cb)[0]:
+                    m_ = re.match(r"arg(\d+)(.*)$", x)
+                    if m_ and int(m_.group(1)) >= 2:
+                        lv |= {s_ + m_.group(2) for s_ in src}
         extra = sorted(l for l in lv if l not in ("arg1",) and not re.match(r"^arg1\.container(\.authority|\.blocks)?(\.signature)?$", l))
         need = any(l == "arg1.container.authority.signature" for l in lv) and any(l == "arg1.container.blocks.signature" for l in lv)
         calls = sorted({short_(c.callee) for c in fb.calls(b) if not c.indirect})
@@ -792,7 +817,8 @@ def revocation_rules(fb, ctx):
         h = fb.hir_of(b)
         loops = find_all(h["body"], lambda n: n.get("k") == "loop" and n.get("src") == "ForLoop")
         rev = [c for c in hirq.callee_paths(h["body"]) if re.search(r"::(rev|sort|sort_by|sort_unstable|dedup|insert|swap|reverse)$", c)]
-        ctx.check(len(loops) == 1 and not rev, "REVID", f"{short}: container order is kept", f"REVID|{short}|order", f"reordering calls {rev}", f"{b['file']}:{b['line']}")
+        chain_ok = not loops and any(re.search(r"Iterator::collect$|::collect$", c) for c in hirq.callee_paths(h["body"])) and any(re.search(r"::chain$", c) for c in hirq.callee_paths(h["body"]))
+        ctx.check((len(loops) == 1 or chain_ok) and not rev, "REVID", f"{short}: container order is kept", f"REVID|{short}|order", f"reordering calls {rev}", f"{b['file']}:{b['line']}")
 
 
 def short_(p):
